@@ -128,6 +128,7 @@ def run(ctx, tier):
     results += c03.sorted_registry(ctx, rule='C04.registry-discipline')
     results += c03.release_sites(ctx, rule='C04.release-site')
     results += c03.release_bound(ctx, rule='C04.release-bound')
+    results += c03.register(ctx, rule='C04.register')
     results += c03.deregister_only_own(ctx, rule='C04.deregister-only-own')
     import c10
     results += c10.release_per_entry(ctx, rule='C04.release-per-entry')
